@@ -1214,7 +1214,17 @@ func (r *RIBHolder) GetNextHopGroup(id uint64) (*aft.Afts_NextHopGroup, bool) {
 
 // candidateRIB takes the input set of Afts and returns them as a aft.RIB pointer
 // that can be merged into an existing RIB.
-func candidateRIB(a *aftpb.Afts) (*aft.RIB, error) {
+func candidateRIB(a *aftpb.Afts) (_ *aft.RIB, rerr error) {
+	// The entry is supplied by the client, and the libraries used to unmarshal
+	// it panic on some malformed contents (e.g., enumerated values that are not
+	// defined in the schema) - such an entry must be reported as invalid rather
+	// than taking the server down.
+	defer func() {
+		if r := recover(); r != nil {
+			rerr = fmt.Errorf("invalid RIB entry %s, %v", a, r)
+		}
+	}()
+
 	paths, err := protomap.PathsFromProto(a)
 	if err != nil {
 		return nil, err
